@@ -270,7 +270,7 @@ def run(chk):
                 "(1..5000 random bytes) / an empty file / an almost-TDF file (signature present but not at offset 0, one bit off, truncated); 2-5 calls from {Tdf.new, copy, open+enter, a later mutation of any TDF "
                 "path}; after every call: bytes of every path before/after, exception class; oracle: the property's clauses "
                 "on the implementation alone; correspondence: Fs.v fs_new / fs_copy / fs_open on the same file-system state; "
-                "plus targets given as relative paths (bare name, ./name, sub/name, ../dir/name) with the current directory different from the source's; non-trivial = a creating/copying call or a refused open")
+                "plus targets given as relative paths (bare name, ./name, sub/name, ../dir/name) with the current directory different from the source's; plus copies of an object opened through a symbolic link, a relative symbolic link, a chain of links or a hard link to the recording (the copy is a regular file of its own, independent under later mutation; an existing target that is itself a link is refused); non-trivial = a creating/copying call or a refused open")
     rng = common.rng_for(chk.seed, "C17")
     n = 250 if chk.tier == "quick" else 4000
     work = os.path.join(chk.work, "fs")
@@ -281,6 +281,7 @@ def run(chk):
             break
     long_lived(chk, rng, work)
     relative_targets(chk, rng, work)
+    linked_sources(chk, rng, work)
     # independence of a copy under the full container engine: mutate the copy, then the original
     from basictdf import Tdf
     for j in range(5 if chk.tier == "quick" else 60):
@@ -379,6 +380,83 @@ def relative_targets(chk, rng, work):
         os.chdir(cwd0)
         for d in (a, b):
             shutil.rmtree(d, ignore_errors=True)
+
+
+def linked_sources(chk, rng, work):
+    """the object being copied was opened through a path that is a symbolic link (work/current.tdf -> archive/walk01.tdf)
+    or a hard link to the recording: copy() still yields a FILE OF ITS OWN at the new path — a regular file with the
+    source's bytes, and mutating either afterwards leaves the other as it was; an existing target (also one that is
+    itself a link) is refused and nothing changes"""
+    from basictdf import Tdf
+    from harness import container
+    d = os.path.join(work, "links")
+    for j in range(12 if chk.tier == "quick" else 120):
+        shutil.rmtree(d, ignore_errors=True)
+        os.makedirs(os.path.join(d, "archive"))
+        real = os.path.join(d, "archive", "walk01.tdf")
+        data = tdf_bytes(rng, work, rng.randrange(0, 3))
+        open(real, "wb").write(data)
+        how = ("symbolic link", "relative symbolic link", "hard link", "link to a link")[j % 4]
+        src = os.path.join(d, "current.tdf")
+        if how == "symbolic link":
+            os.symlink(real, src)
+        elif how == "relative symbolic link":
+            os.symlink(os.path.join("archive", "walk01.tdf"), src)
+        elif how == "hard link":
+            os.link(real, src)
+        else:
+            os.symlink(real, os.path.join(d, "mid.tdf"))
+            os.symlink(os.path.join(d, "mid.tdf"), src)
+        target = os.path.join(d, "copy.tdf")
+        pre = None
+        if j % 3 == 2:                      # the target exists — as a link to some other file
+            other = os.path.join(d, "archive", "other.bin")
+            open(other, "wb").write(b"somebody else's file " * 4)
+            os.symlink(other, target)
+            pre = open(other, "rb").read()
+        chk.note_case(("linked source", how, pre is not None, j), True)
+        chk.count("copy of an object opened through a %s%s" % (how, ", target exists" if pre is not None else ""))
+        what = {"scenario": "Tdf(<%s to archive/walk01.tdf>).copy('copy.tdf')" % how, "target_exists_as_link": pre is not None, "source_bytes": len(data)}
+        try:
+            t = Tdf(src).copy(target)
+            rc = 0
+        except Exception as e:
+            rc = err_code(e)
+        found = None
+        if pre is not None:
+            if rc != common.ERR["FileExistsError"]:
+                found = "the target exists but copy() %s" % ("succeeded" if rc == 0 else "raised error %d, not FileExistsError" % rc)
+            elif open(os.path.join(d, "archive", "other.bin"), "rb").read() != pre or not os.path.islink(target):
+                found = "copy() was refused but the existing target changed"
+        elif rc != 0:
+            found = "copy() to a path that does not exist was refused (error %d)" % rc
+        elif os.path.islink(target) or not os.path.isfile(target):
+            found = "the copy is %s, not a file of its own" % ("a symbolic link to %r" % os.readlink(target) if os.path.islink(target) else "not a regular file")
+        elif os.path.samefile(target, real):
+            found = "the copy and the original are the same file on disk"
+        elif open(target, "rb").read() != data:
+            found = "the copy is not byte-identical to the source"
+        if found is None and open(real, "rb").read() != data:
+            found = "the original changed during copy()"
+        if found is None and rc == 0:
+            # independence: mutate the copy, then the original
+            try:
+                ev = container.small_block("EV", rng, 1).build()
+                with t.allow_write() as f:
+                    f.events = ev
+                if open(real, "rb").read() != data:
+                    found = "a mutation of the copy changed the original"
+                else:
+                    kept = open(target, "rb").read()
+                    with Tdf(src).allow_write() as f:
+                        f.events = ev
+                    if open(target, "rb").read() != kept:
+                        found = "a mutation of the original changed the copy"
+            except Exception as e:
+                found = "a later mutation failed: " + common.exc_info(e)
+        if found:
+            chk.violation("C17: %s [%s]" % (found, what["scenario"]), what, True)
+            return
 
 
 def long_lived(chk, rng, work):
